@@ -72,6 +72,11 @@ pub fn format_commit_line_with_osc8_commit_hyperlink<'a>(
         }
     }
 
+    // A line which already carries a hyperlink is left alone: a hash inside the URL or the text
+    // of that link must not be wrapped in a second one.
+    if line.contains("\x1b]8;") {
+        return Cow::from(line);
+    }
     if let Some(commit_link_format) = &config.hyperlinks_commit_link_format {
         let mut matches = COMMIT_HASH_REGEX.find_iter(line);
         if let Some(first_match) = matches.next() {
